@@ -533,8 +533,8 @@ def c04(pid, tier, seed, selftest=False):
     # (damaged later chunks, appended data, a full device, a reader that has gone away)
     import checks_cli
     checks_cli.tool_clause(rep, pid, tpl, seed, ["decrypt", "pass_decrypt"],
-                           ["corrupt_first_chunk", "corrupt_later_chunk", "truncated_later_chunk", "appended_data", "stdout_closed", "stdout_full",
-                            "output_device_full"], "C04_")
+                           ["none", "corrupt_first_chunk", "corrupt_later_chunk", "truncated_later_chunk", "appended_data", "stdout_closed", "stdout_full",
+                            "output_device_full"], "C04_", priors=("absent", "present"))
     return finish(rep, runs)
 
 
